@@ -114,6 +114,18 @@ class Module:
                 if isinstance(t, ast.Name):
                     self.assigns[t.id] = st.value
                     self.global_edits.pop(t.id, None)
+                elif isinstance(t, (ast.Tuple, ast.List)) and all(isinstance(e, ast.Name) for e in t.elts):
+                    # A, B = x, y  /  A, B = pair: each name is the matching component
+                    for k, e in enumerate(t.elts):
+                        if isinstance(st.value, (ast.Tuple, ast.List)) and len(st.value.elts) == len(t.elts) \
+                                and not any(isinstance(x, ast.Starred) for x in st.value.elts):
+                            self.assigns[e.id] = st.value.elts[k]
+                        else:
+                            sub = ast.Subscript(value=st.value, slice=ast.Constant(value=k), ctx=ast.Load())
+                            ast.copy_location(sub, st.value)
+                            ast.fix_missing_locations(sub)
+                            self.assigns[e.id] = sub
+                        self.global_edits.pop(e.id, None)
                 elif isinstance(t, ast.Subscript) and isinstance(t.value, ast.Name) and t.value.id in self.assigns:
                     self.global_edits.setdefault(t.value.id, []).append(st)
         elif isinstance(st, ast.Expr) and isinstance(st.value, ast.Call) and isinstance(st.value.func, ast.Attribute) and isinstance(st.value.func.value, ast.Name) \
